@@ -17,7 +17,7 @@ class StatementSplitter:
     def _reset(self):
         """Set the filter attributes to its default values"""
         self._in_declare = False
-        self._in_case = False
+        self._in_case = 0
         self._is_create = False
         self._begin_depth = 0
 
@@ -61,20 +61,29 @@ class StatementSplitter:
 
         # BEGIN and CASE/WHEN both end with END
         if unified == 'END':
-            if not self._in_case:
-                self._begin_depth = max(0, self._begin_depth - 1)
-            else:
-                self._in_case = False
-            return -1
+            if self._in_case:
+                self._in_case -= 1
+                return -1
+            # only a BEGIN inside CREATE raised the level, a stray END (or
+            # the END of a CASE expression or transaction) must not lower it
+            opened = self._is_create and self._begin_depth > 0
+            self._begin_depth = max(0, self._begin_depth - 1)
+            if opened:
+                return -1
+            return 0
 
         if (unified in ('IF', 'FOR', 'WHILE', 'CASE')
                 and self._is_create and self._begin_depth > 0):
             if unified == 'CASE':
-                self._in_case = True
+                # CASE expressions can be nested, each is closed by an END
+                self._in_case += 1
             return 1
 
         if unified in ('END IF', 'END FOR', 'END WHILE'):
-            return -1
+            # closes what IF/FOR/WHILE opened (only inside a CREATE ... BEGIN)
+            if self._is_create and self._begin_depth > 0:
+                return -1
+            return 0
 
         # Default
         return 0
